@@ -100,7 +100,11 @@ def run_history_shard(mod, shard):
             nt = mod.nontrivial(h)
             if nt:
                 counters['nontrivial_cases'] += 1
-                nontriv.add(small_hash(h.scenario()))
+                if getattr(h, 'nt_keys', None):
+                    base = small_hash([h.prog_rel, h.cache_rel])
+                    nontriv.update(small_hash([base, k]) for k in h.nt_keys)       # distinct (scenario, point) pairs
+                else:
+                    nontriv.add(small_hash(h.scenario()))
                 if len(samples) < 2:
                     samples.append(_sample(h))
             for fl in h.flags:
